@@ -18,21 +18,22 @@ subprocess.run("git -C /repo worktree remove --force %s; rm -rf %s" % (WT, WT), 
 subprocess.run("git -C /repo worktree add --detach %s HEAD" % WT, shell=True, capture_output=True, check=True)
 bad = []
 try:
+    # one function at a time: a false postcondition on a callee would make the paths after
+    # the call unreachable in its callers and hide their own false postcondition
     for path, fns in ((WT + "/ion/zz_verif_contracts.go", ION), (WT + "/cmd/ion-go/zz_verif_contracts.go", MAIN)):
-        s = open(path).read()
+        orig = open(path).read()
         for fn in fns:
             t = "//@ func %s\n" % fn
-            assert t in s, fn
-            s = s.replace(t, t + "//@ ensures[C99] 1 == 2\n", 1)
-        open(path, "w").write(s)
-    for fn in ION + MAIN:
-        p = subprocess.run([VERIF + "/bin/ionvc", "dev", "-repo", WT, "-func", fn + ""], env=ENV, cwd=VERIF, capture_output=True, text=True, timeout=1500)
-        out = p.stdout + p.stderr
-        fails = len(re.findall(r"FAIL .*%s:post:ensures0" % re.escape(fn), out))
-        tot = re.search(r"total (\d+) obligations, (\d+) ok", out)
-        print("%-45s failed false postconditions: %d   (%s)" % (fn, fails, tot.group(0) if tot else out.strip()[-80:]), flush=True)
-        if fails == 0:
-            bad.append(fn)
+            assert t in orig, fn
+            open(path, "w").write(orig.replace(t, t + "//@ ensures[C99] 1 == 2\n", 1))
+            p = subprocess.run([VERIF + "/bin/ionvc", "dev", "-repo", WT, "-func", fn + ""], env=ENV, cwd=VERIF, capture_output=True, text=True, timeout=1500)
+            out = p.stdout + p.stderr
+            fails = len(re.findall(r"FAIL .*%s:post:ensures0" % re.escape(fn), out))
+            tot = re.search(r"total (\d+) obligations, (\d+) ok", out)
+            print("%-45s failed false postconditions: %d   (%s)" % (fn, fails, tot.group(0) if tot else out.strip()[-80:]), flush=True)
+            if fails == 0:
+                bad.append(fn)
+        open(path, "w").write(orig)
 finally:
     subprocess.run("git -C /repo worktree remove --force %s" % WT, shell=True, capture_output=True)
 if bad:
